@@ -437,42 +437,49 @@ func main() {
 				for _, reason := range reasons {
 					for _, delivery := range []string{"all-at-once", "chunks-of-3", "last-bytes-with-EOF", "chunks-of-3-last-with-EOF"} {
 						for _, masked := range []bool{true, false} {
-							c, reason, delivery, masked := c, reason, delivery, masked
-							t.Do(func() string {
-								return fmt.Sprintf("close code=%d reason=%q masked=%v delivered %s", c, reason, masked, delivery)
-							}, func() *explore.Fail {
-								body := append([]byte{byte(c >> 8), byte(c)}, reason...)
-								want := ws.CheckCloseFrameData(ws.StatusCode(c), reason)
-								h := ws.Header{Fin: true, OpCode: ws.OpClose, Length: int64(len(body)), Masked: masked, Mask: mask}
-								wire := body
-								st := ws.StateClientSide
-								if masked {
-									wire = refmodel.XOR(body, mask, 0)
-									st = ws.StateServerSide
+							for _, bits := range []ws.State{0, ws.StateExtended, ws.StateFragmented} {
+								if bits != 0 && delivery != "all-at-once" {
+									continue
 								}
-								src := env.NewSrc(wire)
-								if strings.HasPrefix(delivery, "chunks-of-3") {
-									src.Policy = env.FixedChunk(3)
-								}
-								src.WithLast = strings.HasSuffix(delivery, "with-EOF")
-								err := wsutil.ControlHandler{Src: src, Dst: env.NewDst(), State: st}.Handle(h)
-								ce, closed := err.(wsutil.ClosedError)
-								if want == nil {
-									if !closed || int(ce.Code) != c || ce.Reason != reason {
-										return explore.Failf("acceptable-close-not-reported-as-received", "handler returned %#v; CheckCloseFrameData accepts (%d,%q)", err, c, reason)
+								c, reason, delivery, masked, bits := c, reason, delivery, masked, bits
+								t.Do(func() string {
+									return fmt.Sprintf("close code=%d reason=%q masked=%v delivered %s, further state bits %08b", c, reason, masked, delivery, bits)
+								}, func() *explore.Fail {
+									body := append([]byte{byte(c >> 8), byte(c)}, reason...)
+									want := ws.CheckCloseFrameData(ws.StatusCode(c), reason)
+									h := ws.Header{Fin: true, OpCode: ws.OpClose, Length: int64(len(body)), Masked: masked, Mask: mask}
+									wire := body
+									st := ws.StateClientSide
+									if masked {
+										wire = refmodel.XOR(body, mask, 0)
+										st = ws.StateServerSide
 									}
-									t.Outcome("accepted")
+									src := env.NewSrc(wire)
+									if strings.HasPrefix(delivery, "chunks-of-3") {
+										src.Policy = env.FixedChunk(3)
+									}
+									src.WithLast = strings.HasSuffix(delivery, "with-EOF")
+									// (the state the caller tracks may say more than the side: a negotiated extension, a
+									// fragmented message open around this close frame)
+									err := wsutil.ControlHandler{Src: src, Dst: env.NewDst(), State: st | bits}.Handle(h)
+									ce, closed := err.(wsutil.ClosedError)
+									if want == nil {
+										if !closed || int(ce.Code) != c || ce.Reason != reason {
+											return explore.Failf("acceptable-close-not-reported-as-received", "handler returned %#v; CheckCloseFrameData accepts (%d,%q)", err, c, reason)
+										}
+										t.Outcome("accepted")
+										return nil
+									}
+									if closed {
+										return explore.Failf("unacceptable-close-reported-as-clean", "handler reported (%d,%q); CheckCloseFrameData: %v", ce.Code, ce.Reason, want)
+									}
+									if err != want {
+										return explore.Failf("close-verdict-differs-from-the-check", "handler: %v; CheckCloseFrameData: %v", err, want)
+									}
+									t.Outcome("refused")
 									return nil
-								}
-								if closed {
-									return explore.Failf("unacceptable-close-reported-as-clean", "handler reported (%d,%q); CheckCloseFrameData: %v", ce.Code, ce.Reason, want)
-								}
-								if err != want {
-									return explore.Failf("close-verdict-differs-from-the-check", "handler: %v; CheckCloseFrameData: %v", err, want)
-								}
-								t.Outcome("refused")
-								return nil
-							})
+								})
+							}
 						}
 					}
 				}
